@@ -5,7 +5,6 @@ the outcome of construction + solve is the same for the three routes.  dtype / H
 is observed by the harness (fresh processes, both construction orders).
 -/
 import MdpaxV.Model.Config
-import MdpaxV.Theory.GenTie
 import Mathlib.Tactic.Linarith
 import Mathlib.Tactic.Tauto
 import Mathlib.Tactic.IntervalCases
@@ -251,49 +250,5 @@ theorem setVerbosity_ok (l : List Char ⊕ Int) (v : Int) (n : List Char) (h : s
 example : setVerbosity (.inl ['t','r','A','c','e']) = .ok (4, levelName 4) := by decide
 example : setVerbosity (.inl ['v','e','r','b','o','s','e']) = .error .valueError := by decide
 example : setVerbosity (.inr 5) = .error .valueError := by decide
-
-/-- **tie by translation**: `get_convergence_format` *as written in /repo's source* (translated on every run) computes the
-    model's `decimalPlaces`, so `decimalPlaces_valid` is a statement about the code: the precision of the progress format is a
-    valid one (0 ≤ d ≤ max_decimals) for every positive threshold of any magnitude -/
-theorem format_code_eq_model (e : Int) (m : Nat) : Gen.decimalPlaces e (m : Int) = decimalPlaces e m :=
-  GenTie.decimalPlaces_eq_model e m
-
-theorem format_code_valid (e : Int) (m : Nat) : 0 ≤ Gen.decimalPlaces e (m : Int) ∧ Gen.decimalPlaces e (m : Int) ≤ (m : Int) := by
-  rw [format_code_eq_model]; exact decimalPlaces_valid e m
-
-/-- the validator of each solver class as written in /repo's source (translated on every run) -/
-def codeValidator : SolverKind → SolverCfg → Except CfgErr Unit
-  | .vi => Gen.validate_vi | .pi => Gen.validate_pi | .rvi => Gen.validate_rvi
-  | .periodic => Gen.validate_periodic | .semi => Gen.validate_semi
-
-/-- **tie by translation**: the five `__post_init__` validators *as written in /repo* are the model's `validateSolver` -/
-theorem validators_code_eq_model (k : SolverKind) (c : SolverCfg) : codeValidator k c = validateSolver k c := by
-  cases k
-  · exact GenTie.validate_vi_eq c
-  · exact GenTie.validate_pi_eq c
-  · exact GenTie.validate_rvi_eq c
-  · exact GenTie.validate_periodic_eq c
-  · exact GenTie.validate_semi_eq c
-
-/-- hence the code's validators accept exactly the documented domain … -/
-theorem validators_code_iff (k : SolverKind) (c : SolverCfg) : codeValidator k c = .ok () ↔ SolverValid k c := by
-  rw [validators_code_eq_model]; exact validateSolver_iff k c
-
-/-- … and reject with `TypeError` exactly for a non-config problem, `ValueError` otherwise -/
-theorem validators_code_error_class (k : SolverKind) (c : SolverCfg) (e : CfgErr) (h : codeValidator k c = .error e) :
-    (c.problemOk = false → e = .typeError) ∧ (c.problemOk = true → e = .valueError) := by
-  rw [validators_code_eq_model] at h; exact validateSolver_error_class k c e h
-
-/-- **tie by translation, problem configurations**: the four problem `__post_init__` validators as written in /repo are the
-    model's, so the `validate*_iff` theorems above are statements about the code -/
-theorem problem_validators_code_eq_model :
-    (∀ c, Gen.pvalidate_Forest c = validateForest c) ∧ (∀ c, Gen.pvalidate_DeMoor c = validateDeMoor c) ∧
-    (∀ c, Gen.pvalidate_Hendrix c = validateHendrix c) ∧ (∀ c, Gen.pvalidate_Mirjalili c = validateMirjalili c) :=
-  ⟨GenTie.pvalidate_forest_eq, GenTie.pvalidate_demoor_eq, GenTie.pvalidate_hendrix_eq, GenTie.pvalidate_mirjalili_eq⟩
-
-/-- **tie by translation, verbosity**: `verbosity_to_loguru_level` as written in /repo is the model's `loguruLevel`, so
-    `loguruLevel_ok_iff` and `levelName_injective` are statements about the code's table -/
-theorem verbosity_code_eq_model (isInt : Bool) (v : Int) : Gen.loguruLevel isInt v = loguruLevel isInt v :=
-  GenTie.loguruLevel_eq isInt v
 
 end MdpaxV.C20
